@@ -190,6 +190,7 @@ func checkC08(p *Prog, res *Result, tier string) {
 	res.rule("C08-R3", "the engine timestamp handed to the scan workers is obtained before the floor check", 2)
 	res.rule("C08-R5", "the engines evaluate the CAS on the compaction record atomically with the write (C11-R1/R2): otherwise an overlapping older compaction lowers the floor", 6)
 	res.rule("C08-R6", "the compaction record is written without an engine TTL (C17-R5): a record that expires lowers the floor to nothing", 4)
+	res.rule("C08-R7", "whoever calls a function that writes the compaction record returns its error, whatever its class: a compaction whose record write lost a compare-and-swap is not reported as accepted", 2)
 	res.rule("C08-R4", "the floor check returns an error on the true branch of 'stored > requested' and returns nil only if the record is absent or not larger", 2)
 
 	// ---- R1 ----
@@ -236,6 +237,37 @@ func checkC08(p *Prog, res *Result, tier string) {
 				res.bad("C08-R1", construct, pos, "unconditional "+kind+" of the compaction record: an older compaction request can lower (or remove) the floor")
 			}
 		}
+	}
+
+	// ---- R7: a compaction is reported as accepted only if its record write succeeded ----
+	// (a lost compare-and-swap means another compaction moved the record - to a revision this rule knows nothing about:
+	// answering 'compacted at R' while the floor is below R lets reads below R through)
+	{
+		writers := map[*ssa.Function]bool{}
+		for _, f := range p.AllFuncs {
+			for _, c := range callsIn(f) {
+				var key ssa.Value
+				switch {
+				case r.is(c, r.BWCAS), r.is(c, r.BWPutIfNotExist), r.is(c, r.BWPut):
+					key = argForSigParam(c, 0)
+				}
+				if key != nil && c.Common().IsInvoke() && ck.isKey(key) && errorResultIndex(f.Signature) >= 0 {
+					writers[f] = true
+				}
+			}
+		}
+		errflowAcceptFailure, errflowNoClassification = true, true
+		checkErrorPreservation(p, res, "C08-R7",
+			func(g *ssa.Function) bool { return g.Pkg != nil && strings.HasPrefix(g.Pkg.Pkg.Path(), modPath+"/pkg/backend") },
+			func(c ssa.CallInstruction) (string, bool) {
+				sc := c.Common().StaticCallee()
+				if sc == nil || !writers[sc] {
+					return "", false
+				}
+				return funcName(sc), true
+			},
+			"the compaction is answered as accepted although its record was not written: the floor stays where another compaction put it, and reads below the answered revision are served")
+		errflowAcceptFailure, errflowNoClassification = false, false
 	}
 
 	// ---- R4 (floor check shape) ----
